@@ -146,10 +146,58 @@ def all_scenarios():
     return out
 
 
+def shared_context_runs(si, n, profile, part):
+    """two threads on ONE shared context: thread A's context function locks the context handle and, holding the guard,
+    registers a function; thread B keeps calling a function on the same context. Neither may ever block the other for good."""
+    wd = common.workdir(PROP)
+    for h in range(n):
+        cid = 1000000 + h
+        nm = "shr%d_%d" % (si, h)
+        fns = {"lk": {"id": 3000, "log": True, "ret": "last", "reenter": {"act": "lock_then_reg", "name": nm, "beh": {"id": 3001, "ret": "last"}}}, "hh": {"id": 3002, "ret": "last"}}
+        steps = [{"op": "ctx", "id": cid, "vars": {"v": ["n", "1", 0]}, "fns": fns},
+                 {"op": "threads", "plans": [[{"op": "exec", "ctx": cid, "text": "lk(1) + v", "nosnap": True} for _ in range(150)],
+                                             [{"op": "hammer", "ctx": cid, "n": 1500, "text": "hh(1) + hh(2)"}],
+                                             [{"op": "hammer", "ctx": cid, "n": 1500, "text": "hh(3)"}]]},
+                 {"op": "exec", "text": "%s(5)" % nm}]
+        run = common.run_vexec(steps, wd, "shared-%d-%d" % (si, h), profile, timeout=300)
+        kind_, detail = common.crash_verdict(run, "shared context")
+        part["evaluations"] += 1
+        part["counts"]["shared_context_runs"] = part["counts"].get("shared_context_runs", 0) + 1
+        if kind_ in ("deadlock", "hang", "signal"):
+            part["violations"].append({"sig": [kind_, "shared-context", "lock_then_reg"], "what": "two threads on one shared context (A: context function locks the context handle and registers a function while holding it; B: calls functions on the same context): %s" % detail, "replay": {"steps": steps}})
+            continue
+        if kind_ is not None or not run.ended:
+            part["inconclusive"].append("%s %s" % (kind_, detail))
+            continue
+        st = run.steps()
+        th = st[1].get("threads", [])
+        bad = None
+        if not isinstance(th, list) or len(th) != 3 or not all(isinstance(x, list) for x in th):
+            bad = "a thread panicked"
+        else:
+            for r in th[0]:
+                if r.get("res") != {"ok": ["n", "2", 0]}:
+                    bad = "thread A's evaluation returned %s" % json.dumps(r.get("res"))
+            for t_ in th[1:]:
+                for sg in t_[0].get("segs", []):
+                    if sg["res"] not in ({"ok": ["n", "3", 0]},):
+                        bad = "thread B's evaluation returned %s" % json.dumps(sg["res"])
+        if st[2].get("res") != {"ok": ["n", "5", 0]}:
+            bad = "the function registered from inside the handler does not work afterwards: %s" % json.dumps(st[2].get("res"))
+        if bad:
+            part["violations"].append({"sig": ["shared-context-wrong-result"], "what": bad, "replay": {"steps": steps}})
+        else:
+            part["classes"].add("shared-context:lock_then_reg")
+
+
 def run_shard(desc):
     si, scns, profile = desc
     wd = common.workdir(PROP)
     part = {"evaluations": 0, "classes": set(), "violations": [], "samples": [], "abstained": 0, "inconclusive": [], "counts": {"scenarios": 0, "reentrant_calls_performed": 0, "lock_probes": 0}}
+    if scns == "shared":
+        shared_context_runs(si, 3, profile, part)
+        part["classes"] = sorted(part["classes"])
+        return part
     steps, index = [], []
     for (i, kind, action, nesting, pos) in scns:
         st, exp = scenario(i, kind, action, nesting, pos)
@@ -197,6 +245,8 @@ def run(rep, tier):
     for i in range(nsh):
         shards.append((i, scns[i::nsh], "verifdbg"))
         shards.append((100 + i, scns[i::nsh], "release"))
+    for i in range(8 if tier == "quick" else 64):
+        shards.append((900 + i, "shared", "release" if i % 2 else "verifdbg"))
     for part in common.pmap(run_shard, shards):
         rep.merge(part)
     rep.extra["exhaustive"] = True
